@@ -898,6 +898,16 @@ func importItems() []*item {
 			map[string]string{"b.bop": gp(impRoot+"/i$K/bpkg") + "import \"./c.bop\"\nstruct BType {\n\tCType c;\n}\n", "c.bop": gp(impRoot+"/i$K/cpkg") + "struct CType {\n\tint32 a;\n}\n"}, []string{"c.bop", "b.bop"}, mode, defaultPkg)
 		sp(mname+":transitive-only-deep-type", "struct-field", "a imports b imports c; a uses only a type of c", "import \"./b.bop\"\nstruct ZqS {\n\tCType c;\n}\n",
 			map[string]string{"b.bop": gp(impRoot+"/i$K/bpkg") + "import \"./c.bop\"\nstruct BType {\n\tCType c;\n}\n", "c.bop": gp(impRoot+"/i$K/cpkg") + "struct CType {\n\tint32 a;\n}\n"}, []string{"c.bop", "b.bop"}, mode, defaultPkg)
+		// package names in a prefix / suffix / case relation: which imports the output needs is decided by name matching
+		for _, pn := range [][2]string{{"units", "unitsext"}, {"unitsext", "units"}, {"v1", "v10"}, {"model", "amodel"}, {"shapes", "shapes2"}} {
+			bp, cp := pn[0], pn[1]
+			files := map[string]string{"b.bop": gp(impRoot+"/i$K/"+bp) + "import \"./c.bop\"\nstruct BType {\n\tCType c;\n}\nenum BEnum {\n\tA = 1;\n}\n", "c.bop": gp(impRoot+"/i$K/"+cp) + "struct CType {\n\tint32 a;\n}\n"}
+			sp(mname+":transitive-names-"+bp+"-"+cp+":uses-near-only", "struct-field", "a imports b ("+bp+") imports c ("+cp+"); a uses only types of b", "import \"./b.bop\"\nstruct ZqS {\n\tBType b;\n\tarray[BEnum] es;\n}\n", files, []string{"c.bop", "b.bop"}, mode, defaultPkg)
+			sp(mname+":transitive-names-"+bp+"-"+cp+":uses-deep-only", "struct-field", "a imports b ("+bp+") imports c ("+cp+"); a uses only a type of c", "import \"./b.bop\"\nmessage ZqM {\n\t1 -> map[string, CType] c;\n}\n", files, []string{"c.bop", "b.bop"}, mode, defaultPkg)
+			sp(mname+":transitive-names-"+bp+"-"+cp+":uses-both", "struct-field", "a imports b ("+bp+") imports c ("+cp+"); a uses both", "import \"./b.bop\"\nstruct ZqS {\n\tBType b;\n\tCType c;\n}\n", files, []string{"c.bop", "b.bop"}, mode, defaultPkg)
+			flat := map[string]string{"b.bop": gp(impRoot+"/i$K/"+bp) + "struct BType {\n\tint32 a;\n}\n", "c.bop": gp(impRoot+"/i$K/"+cp) + "struct CType {\n\tint32 a;\n}\n"}
+			sp(mname+":two-imports-names-"+bp+"-"+cp+":uses-first-only", "struct-field", "a imports b ("+bp+") and c ("+cp+"), uses only b", "import \"./b.bop\"\nimport \"./c.bop\"\nstruct ZqS {\n\tBType b;\n}\n", flat, []string{"c.bop", "b.bop"}, mode, defaultPkg)
+		}
 		sp(mname+":two-imports", "struct-field", "two imported files, both used", "import \"./b.bop\"\nimport \"./c.bop\"\nstruct ZqS {\n\tBType b;\n\tCType c;\n}\n",
 			map[string]string{"b.bop": gp(impRoot+"/i$K/bpkg") + "struct BType {\n\tint32 a;\n}\n", "c.bop": gp(impRoot+"/i$K/cpkg") + "struct CType {\n\tint32 a;\n}\n"}, []string{"c.bop", "b.bop"}, mode, defaultPkg)
 		sp(mname+":two-imports-same-package-base-name", "struct-field", "two imported packages whose last path element is equal", "import \"./b.bop\"\nimport \"./c.bop\"\nstruct ZqS {\n\tBType b;\n\tCType c;\n}\n",
